@@ -58,7 +58,10 @@ type StorageCar struct {
 	opts       carv2.Options
 
 	closed bool
-	mu     sync.RWMutex
+	// writeErr is set when a failed write left a partial section behind that could not be
+	// removed; nothing more can be written or finalized then.
+	writeErr error
+	mu       sync.RWMutex
 }
 
 type positionedWriter interface {
@@ -316,6 +319,9 @@ func (sc *StorageCar) Put(ctx context.Context, keyStr string, data []byte) error
 	if sc.closed {
 		return ErrClosed
 	}
+	if sc.writeErr != nil {
+		return sc.writeErr
+	}
 
 	idx, ok := sc.idx.(*index.InsertionIndex)
 	if !ok || sc.writer == nil {
@@ -341,6 +347,18 @@ func (sc *StorageCar) Put(ctx context.Context, keyStr string, data []byte) error
 	}
 	n := uint64(w.Position())
 	if err := util.LdWrite(w, keyCid.Bytes(), data); err != nil {
+		if w.Position() != int64(n) {
+			// Part of the section reached the writer: cut it off and move the writer back, so that
+			// the payload ends with the last complete section again. A plain io.Writer (or a
+			// writer that cannot truncate) cannot take it back, the CAR cannot be continued then.
+			rerr := errors.New("writer is not seekable")
+			if sc.dataWriter != nil {
+				rerr = sc.dataWriter.Rewind(int64(n))
+			}
+			if rerr != nil {
+				sc.writeErr = fmt.Errorf("cannot remove partially written section: %w", rerr)
+			}
+		}
 		return err
 	}
 	idx.InsertNoReplace(keyCid, n)
@@ -474,10 +492,17 @@ func (sc *StorageCar) Finalize() error {
 		return nil
 	}
 
+	sc.mu.Lock()
+	defer sc.mu.Unlock()
+
+	if werr := sc.writeErr; werr != nil {
+		// The CAR cannot be completed; the store is finished all the same.
+		sc.closed = true
+		return werr
+	}
+
 	if sc.opts.WriteAsCarV1 {
 		// Nothing to write for a CARv1, but the store is done: refuse further use like a CARv2 does.
-		sc.mu.Lock()
-		defer sc.mu.Unlock()
 		if sc.closed {
 			return fmt.Errorf("called Finalize on a closed storage CAR")
 		}
@@ -489,9 +514,6 @@ func (sc *StorageCar) Finalize() error {
 	if !ok { // should should already be checked at construction if this is a writable
 		return fmt.Errorf("cannot finalize a CARv2 without an io.WriterAt")
 	}
-
-	sc.mu.Lock()
-	defer sc.mu.Unlock()
 
 	if sc.closed {
 		// Allow duplicate Finalize calls, just like Close.
